@@ -85,8 +85,8 @@ type gen struct {
 
 var words = []string{
 	"Alpha", "Bravo", "Charlie", "Delta", "Echo", "Fox", "Golf", "Hotel", "India", "Juliet", "Kilo", "Lima", "Mike", "Nova", "Oscar", "Papa",
-	"Quebec", "Romeo", "Sierra", "Tango", "Ultra", "Victor", "Whisky", "Xray", "Yankee", "Zulu", "Shape", "Circle", "Square", "Item", "Order",
-	"Client", "Group", "Event", "Token", "Ledger", "Entry", "Label", "Point", "Route", "Score", "Phase", "Grade", "Color", "Level", "State",
+	"Quebec", "Romeo", "Sierra", "Tango", "Ultra", "Victor", "Whisky", "Xray", "Yankee", "Zulu", "Shape", "Circle", "Square", "Item", "Orbit",
+	"Client", "Grove", "Event", "Token", "Ledger", "Entry", "Label", "Point", "Route", "Score", "Phase", "Grade", "Color", "Level", "State",
 }
 
 var fieldWords = []string{
